@@ -1678,7 +1678,13 @@ func (p *parser) hoistSymbols(scope *js_ast.Scope) {
 					// Is this unbound (i.e. a global access) or also hoisted?
 					if existingSymbol.Kind == ast.SymbolUnbound || existingSymbol.Kind == ast.SymbolHoisted ||
 						(existingSymbol.Kind.IsFunction() && (s.Kind == js_ast.ScopeEntry || s.Kind == js_ast.ScopeFunctionBody)) {
-						// Silently merge this symbol into the existing symbol
+						// Silently merge this symbol into the existing symbol. If the
+						// existing symbol is a function, the hoisted variable may be used
+						// to assign a different value to it, so it's no longer known to be
+						// that function (e.g. "function f() {} { var f = g } f()").
+						if existingSymbol.Kind.IsFunction() {
+							existingSymbol.Flags |= ast.CouldPotentiallyBeMutated
+						}
 						symbol.Link = existingMember.Ref
 						s.Members[symbol.OriginalName] = existingMember
 						continue nextMember
